@@ -69,7 +69,8 @@ fn vq_c09_timestamp_add_table() {
     kani::cover!(true, "reach:end");
 }
 
-//@ harness props=C09 tier=thorough level=bounded timeout=3000 bound="timestamp < 2^24 us (16 s), duration < 4 s (ns resolution)"
+// NOT REGISTERED (timeout 1800 s even for timestamps < 2^24 us; see contracts/STRENGTH-c09c10.md):
+//@-unregistered harness props=C09 tier=thorough level=bounded timeout=3000 bound="timestamp < 2^24 us (16 s), duration < 4 s (ns resolution)"
 //@ fn Timestamp::add
 #[kani::proof]
 #[kani::unwind(3)]
